@@ -18,7 +18,7 @@ RULE = ("plan = frame (0..12 rows quick / 0..40 thorough) with 1..3 group column
         "missing/±inf/huge key, or ≥ 2 group columns. Distinct = plan hash.")
 CASES = {"quick": 1500, "thorough": 8000}
 
-KEY_KINDS = ["f", "i", "b", "s", "s", "u", "d", "t", "td", "o", "oi", "ob"]
+KEY_KINDS = ["f", "i", "b", "s", "s", "u", "d", "t", "td", "o", "oi", "ob", "u8", "i8", "i32", "f32"]
 HELPERS = ["all", "any", "count", "count_unique", "first", "last", "nth", "min", "max", "mode", "mean", "median", "quantile",
            "std", "var", "sum"]
 
@@ -219,15 +219,17 @@ def check(plan, ctx):
     # ---- grouped modify ----
     if n > 0:
         mod = ctx.call("grouped modify", lambda: data.group_by(*by).modify(
-            gn=lambda g: g.nrow, pos=lambda g: np.arange(g.nrow), first=lambda g: g["_rid_"][0]))
+            gn=lambda g: g.nrow, pos=lambda g: np.arange(g.nrow), first=lambda g: g["_rid_"][0],
+            # a function whose result type depends on the group: an integer for one-row groups, a float otherwise
+            mixed=lambda g: g["_rid_"][0] if g.nrow == 1 else g["_rid_"].mean() + 0.25))
         data._group_colnames = ()
         rid = build.check_whole_rows("grouped modify", {k: mod[k] for k in src}, src)
         if rid != list(range(n)):
             raise Violation("grouped modify changed the row order", got=rid)
-        size, pos, first = {}, {}, {}
+        size, pos, first, rows_of = {}, {}, {}, {}
         for _, rows in gs:
             for p, r in enumerate(rows):
-                size[r], pos[r], first[r] = len(rows), p, rows[0]
+                size[r], pos[r], first[r], rows_of[r] = len(rows), p, rows[0], rows
         if _ints(mod["gn"]) != [size[r] for r in range(n)]:
             raise Violation("grouped modify: group-wise scalar not aligned with the original rows", got=_ints(mod["gn"]))
         if _ints(mod["pos"]) != [pos[r] for r in range(n)]:
@@ -235,6 +237,12 @@ def check(plan, ctx):
                             want=[pos[r] for r in range(n)])
         if _ints(mod["first"]) != [first[r] for r in range(n)]:
             raise Violation("grouped modify: groups not taken in original order", got=_ints(mod["first"]))
+        want = [float(r) if size[r] == 1 else sum(g) / len(g) + 0.25 for r in range(n) for g in [rows_of[r]]]
+        got = [float(x) for x in np.asarray(mod["mixed"])]
+        if got != want:
+            raise Violation("grouped modify: results of differing types per group are not the group-wise values", got=got, want=want)
+        if any(size[r] > 1 for r in range(n)) and any(size[r] == 1 for r in range(n)):
+            ctx.cls("modify_mixed_result_types")
     if build.snap_frame(data) != before:
         raise Violation("grouped operations changed the receiver")
 
